@@ -147,9 +147,15 @@ func classSingleChar(n *pnode) (rune, bool) {
 	if n.k != nClass || len(n.items) == 0 {
 		return 0, false
 	}
-	c := n.items[0].lo
+	ch := func(it classItem) (rune, bool) {
+		if it.esc == 'b' {
+			return 8, true // [\b] is backspace
+		}
+		return it.lo, it.esc == 0 && it.lo == it.hi
+	}
+	c, ok := ch(n.items[0])
 	for _, it := range n.items {
-		if it.esc != 0 || it.lo != it.hi || it.lo != c {
+		if x, ok2 := ch(it); !ok || !ok2 || x != c {
 			return 0, false
 		}
 	}
@@ -169,19 +175,32 @@ func hasNotone(n *pnode) bool {
 }
 
 func domainOK(n *pnode, u bool) bool {
-	return inDomain(n, false, false) && !hasNotone(n) && !hasDashRangeStart(n) && len(surrogateRunOffenders(n, u)) == 0
+	return inDomain(n, false, false) && !hasNotone(n) && !hasPoisonClassItem(n) && len(surrogateRunOffenders(n, u)) == 0 && !hasCountedGroup(n) &&
+		!hasLoopBeforeNonBoundary(n) && !hasNegClassEscape(n)
 }
 
-func hasDashRangeStart(n *pnode) bool {
+func hasCountedGroup(n *pnode) bool {
+	if n.k == nQuant && n.min >= 2 && n.kids[0].k == nGroup {
+		return true
+	}
+	for _, k := range n.kids {
+		if hasCountedGroup(k) {
+			return true
+		}
+	}
+	return false
+}
+
+func hasPoisonClassItem(n *pnode) bool {
 	if n.k == nClass {
 		for _, it := range n.items {
-			if it.esc == 0 && it.lo == '-' && it.hi != it.lo {
+			if it.esc == 0 && (runPoison(it.lo) || runPoison(it.hi)) {
 				return true
 			}
 		}
 	}
 	for _, k := range n.kids {
-		if hasDashRangeStart(k) {
+		if hasPoisonClassItem(k) {
 			return true
 		}
 	}
@@ -201,9 +220,9 @@ func surrogateRunOffenders(root *pnode, u bool) []*pnode {
 	isSur := func(n *pnode) bool {
 		if n.k == nClass {
 			c, one := classSingleChar(n)
-			return one && isLone(c)
+			return one && runPoison(c)
 		}
-		return n.k == nLit && (isLone(n.r) || (!u && n.r >= 0x10000))
+		return n.k == nLit && (runPoison(n.r) || (!u && n.r >= 0x10000))
 	}
 	var walk func(n *pnode)
 	walk = func(n *pnode) {
@@ -291,7 +310,7 @@ func (g *caseGen) fixSurrogateRuns(root *pnode) {
 			// replace by a non-surrogate character of the alphabet (or 'b')
 			repl := rune('b')
 			for _, c := range g.alpha {
-				if !isLone(c) && c < 0x10000 && !isSyntaxChar(c) {
+				if !runPoison(c) && c < 0x10000 && !isSyntaxChar(c) {
 					repl = c
 					break
 				}
@@ -623,6 +642,10 @@ func (g *caseGen) alphaHasAbove(lim rune) bool {
 
 func isLone(r rune) bool { return r >= 0xD800 && r <= 0xDFFF }
 
+// runPoison: characters that regexp2 v2.5.2 cannot carry through its literal-run / set-search optimisations
+// (surrogate code units become U+FFFD in Go strings, U+FFFF is its internal sentinel)
+func runPoison(r rune) bool { return isLone(r) || r == 0xFFFF }
+
 func litFeature(r rune) string {
 	switch {
 	case isLone(r):
@@ -638,6 +661,18 @@ func litFeature(r rune) string {
 }
 
 func (g *caseGen) alphaChar() rune { return g.alpha[g.r.Intn(len(g.alpha))] }
+
+// classChar: a character for a class item. regexp2 v2.5.2 loses surrogate code units in its set-search optimisation
+// (known finding C20-regexp2-surrogate-literal-run), so classes get no lone surrogate and, without u, no astral character.
+func (g *caseGen) classChar() rune {
+	for try := 0; try < 8; try++ {
+		c := g.alphaChar()
+		if !runPoison(c) && (c < 0x10000 || g.u) {
+			return c
+		}
+	}
+	return 'b'
+}
 
 func (g *caseGen) spell(r rune) int {
 	if g.r.Chance(3, 4) {
@@ -689,11 +724,11 @@ func (g *caseGen) class() *pnode {
 	for k := 0; k < cnt; k++ {
 		switch g.r.PickW([]int{55, 25, 20}) {
 		case 0:
-			c := g.alphaChar()
+			c := g.classChar()
 			g.feat["class-"+litFeature(c)] = true
 			n.items = append(n.items, classItem{lo: c, hi: c, spell: g.spell(c)})
 		case 1:
-			a, b := g.alphaChar(), g.alphaChar()
+			a, b := g.classChar(), g.classChar()
 			if g.r.Chance(1, 2) {
 				// a short range around one alphabet character
 				b = a + rune(g.r.Range(0, 3))
@@ -704,8 +739,8 @@ func (g *caseGen) class() *pnode {
 			if a > b {
 				a, b = b, a
 			}
-			if a == '-' && b != a {
-				a = '+' // regexp2 v2.5.2 does not read "\\--x" as a range (known finding C20-regexp2-escaped-dash-range)
+			if isLone(a) || isLone(b) {
+				b = a // (surrogate block is only crossed, never an end point)
 			}
 			// range end points: in non-u mode an astral end point is two class atoms, which would change the meaning
 			// (and can make the range reversed); lone surrogates are fine in both modes
@@ -721,10 +756,8 @@ func (g *caseGen) class() *pnode {
 			n.items = append(n.items, classItem{lo: a, hi: b, spell: g.spell(a) + 8*g.spell(b)})
 		default:
 			// (no \\D inside a class: regexp2 v2.5.2 drops the items that follow it, known finding C20-regexp2-class-notdigit)
-			e := core.Pick(g.r, []byte{'d', 'w', 's', 'd', 'W', 'b'})
-			if g.i && e == 'W' && !g.r.Chance(1, 8) {
-				e = 'd'
-			}
+			// (nor \\W: with overlapping items regexp2 loses members, same known finding)
+			e := core.Pick(g.r, []byte{'d', 'w', 's', 'd', 'w', 'b'})
 			g.feat["class-esc-"+string(rune(e))] = true
 			n.items = append(n.items, classItem{esc: e})
 		}
@@ -762,6 +795,9 @@ func (g *caseGen) quantFor(n *pnode, cx gctx, isGroup bool) *pnode {
 	default:
 		q.brace = true
 		q.min = r.Range(0, 2)
+		if isGroup && q.min >= 2 {
+			q.min = 1 // regexp2 v2.5.2: "\\W*(?:A\\d){2}" does not match "A1A1" (known finding C20-regexp2-setloop-counted-group)
+		}
 		switch r.Intn(3) {
 		case 0:
 			q.max = q.min
@@ -891,9 +927,66 @@ func (g *caseGen) seq(depth int, cx gctx) *pnode {
 		g.feat["empty-alternative"] = true
 	}
 	for k := 0; k < cnt; k++ {
-		n.kids = append(n.kids, g.term(depth, cx))
+		t := g.term(depth, cx)
+		if t.k == nAssert && t.esc == 'B' && k > 0 && endsWithLoop(n.kids[k-1]) {
+			// regexp2 v2.5.2 makes a loop of non-word characters atomic when \\B follows: "\\$+\\B" does not match "$$A"
+			// (known finding C20-regexp2-nonboundary-atomic-loop)
+			t.esc = 'b'
+		}
+		n.kids = append(n.kids, t)
 	}
 	return n
+}
+
+// endsWithLoop: the term ends with a quantified atom with a non-zero minimum (groups are transparent for regexp2)
+func endsWithLoop(n *pnode) bool {
+	switch n.k {
+	case nQuant:
+		return true
+	case nGroup:
+		return endsWithLoop(n.kids[0])
+	case nSeq:
+		return len(n.kids) > 0 && endsWithLoop(n.kids[len(n.kids)-1])
+	case nAlt:
+		for _, k := range n.kids {
+			if endsWithLoop(k) {
+				return true
+			}
+		}
+	}
+	return false
+}
+
+func hasLoopBeforeNonBoundary(n *pnode) bool {
+	if n.k == nSeq {
+		for i := 1; i < len(n.kids); i++ {
+			if n.kids[i].k == nAssert && n.kids[i].esc == 'B' && endsWithLoop(n.kids[i-1]) {
+				return true
+			}
+		}
+	}
+	for _, k := range n.kids {
+		if hasLoopBeforeNonBoundary(k) {
+			return true
+		}
+	}
+	return false
+}
+
+func hasNegClassEscape(n *pnode) bool {
+	if n.k == nClass {
+		for _, it := range n.items {
+			if it.esc == 'D' || it.esc == 'W' {
+				return true
+			}
+		}
+	}
+	for _, k := range n.kids {
+		if hasNegClassEscape(k) {
+			return true
+		}
+	}
+	return false
 }
 
 func (g *caseGen) alt(depth int, cx gctx) *pnode {
@@ -937,10 +1030,30 @@ func (g *caseGen) fixNotone(n *pnode) {
 	}
 }
 
+// limitNesting bounds the quantifiers nested inside a repeated group ("(?:.*x|.*)+" is exponential on the backtracking
+// engine, which is not fuel-metered): inside a repeat, inner quantifiers repeat at most min+1 times.
+func limitNesting(n *pnode, inRepeat bool) {
+	if n.k == nQuant {
+		if inRepeat && (n.max == -1 || n.max > n.min+1) {
+			n.max = n.min + 1
+			if n.max == 0 {
+				n.max = 1
+			}
+			n.brace = !(n.min == 0 && n.max == 1)
+		}
+		limitNesting(n.kids[0], inRepeat || n.max != 1)
+		return
+	}
+	for _, k := range n.kids {
+		limitNesting(k, inRepeat)
+	}
+}
+
 func (g *caseGen) pattern() *pnode {
 	p := g.alt(g.r.Range(1, 3), gctx{})
 	g.fixNotone(p)
 	g.fixSurrogateRuns(p)
+	limitNesting(p, false)
 	return p
 }
 
@@ -1083,9 +1196,27 @@ func (g *caseGen) subject(p *pnode) []uint16 {
 		b := 12
 		rs = g.sample(p, rs, &b)
 	}
+	if g.feat["dot"] && !hasFlag(g.flags, 's') {
+		for i, c := range rs {
+			if c == 0x2028 || c == 0x2029 {
+				rs[i] = ' ' // regexp2's "." matches U+2028/U+2029 (known finding C20-regexp2-dot-line-separators)
+			}
+		}
+	}
 	u := runesToUnits(rs)
-	if len(u) > 24 {
-		u = u[:24]
+	if len(u) > 20 {
+		u = u[:20]
+	}
+	if g.wordB && g.u {
+		// two lone surrogates of the alphabet may meet and form a letter (U+10000, U+10400 ...): keep them apart
+		for i := 0; i+1 < len(u); i++ {
+			if u[i] >= 0xD800 && u[i] <= 0xDBFF && u[i+1] >= 0xDC00 && u[i+1] <= 0xDFFF {
+				cp := 0x10000 + (rune(u[i])-0xD800)<<10 + (rune(u[i+1]) - 0xDC00)
+				if regexp2WordChar(cp) {
+					u[i+1] = ' '
+				}
+			}
+		}
 	}
 	return u
 }
